@@ -25,7 +25,7 @@ def op_target(world, op):
         return _f(world.system.tf)
     if t == "inf":
         return float("inf")
-    return float(t)
+    return float(np.asarray(t, dtype=world.problem.dtype))     # the library sees the target in the state's precision
 
 
 def integrated_ok(snap):
@@ -58,7 +58,7 @@ class Structure(Monitor):
             world.violate(P, P + ".paired_in_loop", "len(t)=%d len(y)=%d len(system)=%d" % (len(t), len(y), n))
             return
         if n >= 2:
-            d = _f(t[-1]) - _f(t[-2])
+            d = t[-1] - t[-2]          # native precision
             if not d * self.dir > 0:
                 world.violate(P, P + ".monotone_in_loop", "t[-2]=%r t[-1]=%r dir=%d" % (_f(t[-2]), _f(t[-1]), self.dir))
         if not (np.all(np.isfinite(y[-1])) and np.isfinite(_f(t[-1]))):
@@ -94,7 +94,7 @@ class Structure(Monitor):
             return
         target = self.target
         start = self.start_t
-        seg = np.asarray(t[m - 1:], dtype=np.float64) if m >= 1 else np.asarray(t, dtype=np.float64)
+        seg = np.asarray(t[m - 1:]) if m >= 1 else np.asarray(t)      # native precision
         d = np.diff(seg)
         if len(d) and not np.all(d * self.dir > 0):
             j = int(np.argmax(~(d * self.dir > 0)))
@@ -102,12 +102,19 @@ class Structure(Monitor):
                           % (i, m - 1 + j, seg[j], seg[j + 1], self.dir))
         if np.isfinite(target):
             scale = max(abs(target), abs(start), 1.0)
-            over = (target - seg) * self.dir
+            over = np.asarray((np.asarray(target, dtype=seg.dtype) - seg) * self.dir, dtype=np.float64)
             if np.any(over < -32 * eps * scale):
                 j = int(np.argmin(over))
                 world.violate(P, P + ".no_overshoot", "row %d time %r beyond target %r (dir %d)" % (m - 1 + j, seg[j], target, self.dir))
         noop = np.isfinite(target) and abs(target - start) < 4 * eps
-        if snap["exc"] is None and not noop:
+        clean_history = all(sn["exc"] is None and "terminated upon" not in sn["status"] for sn in world.snaps[:-1])
+        if snap["exc"] is None and not noop and not clean_history:
+            terminated = "terminated upon finding" in snap["status"] and op.get("events")
+            if np.isfinite(target) and not terminated:
+                scale = max(abs(target), abs(start), 1.0)
+                if abs(_f(t[-1]) - target) > 32 * eps * scale:
+                    world.violate(P, P + ".ends_at_target", "t[-1]=%r target=%r start=%r" % (_f(t[-1]), target, start))
+        if snap["exc"] is None and not noop and clean_history:
             if not snap["success"]:
                 world.violate(P, P + ".status_success", "integrate returned but success is False: %s" % snap["status"])
             terminated = "terminated upon finding" in snap["status"] and op.get("events")
@@ -172,7 +179,8 @@ class Counters(Monitor):
                 if prev_done is not None and r0["icalls_done"] == prev_done:
                     world.violate(P, P + ".cb_once_per_step", "round %d invoked again without a new step" % ri)
                 prev_done = r0["icalls_done"]
-                if not (r0["len"] > prev_len):
+                last_round_of_terminated = (ri == len(rounds) - 1) and op.get("events") and "terminated upon finding" in snap["status"]
+                if not (r0["len"] > prev_len) and not (last_round_of_terminated and r0["len"] >= prev_len):
                     world.violate(P, P + ".cb_after_record", "round %d: len(system)=%d not beyond %d" % (ri, r0["len"], prev_len))
                 prev_len = r0["len"]
                 for rr in r:
@@ -203,7 +211,8 @@ class Counters(Monitor):
             if bitwise_equal(np.abs(h), np.abs(want)):
                 world.probe("cb_dt_honoured")
                 continue
-            clamp_ok = np.isfinite(target) and abs(_f(h)) < abs(_f(want)) and abs(_f(c["t0"]) + _f(h) - target) <= 4 * eps_of(h.dtype) * max(1.0, abs(target))
+            tgt_n = np.asarray(op.get("t") if op.get("t") is not None else world.system.tf, dtype=h.dtype) if np.isfinite(target) else None
+            clamp_ok = np.isfinite(target) and abs(_f(h)) < abs(_f(want)) and _f(np.abs(c["t0"] + h - tgt_n)) <= 4 * eps_of(h.dtype) * max(1.0, abs(target))
             if clamp_ok:
                 world.probe("cb_dt_clamped_final")
                 continue
@@ -303,3 +312,102 @@ class StepValidity(Monitor):
             last = c["attempts"][-1]
             if last["solves"] and not last["solves"][-1].get("success", False):
                 world.violate(self.prop, self.prop + ".accepted_unconverged", "integrator call %d returned a step whose stage solve reported failure" % c["id"])
+
+
+# ======================================================================================== C05 (control-flow clauses)
+class RejectionShrinks(Monitor):
+    """C05: a controller-rejected step is retried with a strictly smaller magnitude (same sign); the recorded
+    step is the last attempt; exhaustion raises FailedToMeetTolerances and records nothing."""
+
+    def __init__(self, prop="C05"):
+        self.prop = prop
+
+    def before_op(self, world, i, op, pre):
+        self.ic0 = len(world.icalls)
+
+    def after_op(self, world, i, op, pre, snap):
+        if snap["kind"] != "integrate":
+            return
+        P = self.prop
+        ics = world.icalls[self.ic0:]
+        for c in ics:
+            if c["kind"] == "rk" and c["depth"] == 0:
+                atts = c["attempts"]
+                for j in range(len(atts) - 1):
+                    a, b = atts[j], atts[j + 1]
+                    if not a["done"]:
+                        continue
+                    solver_failed = any(not sv.get("success", True) or sv.get("raised") for sv in a["solves"]) or (a.get("newton_ok") is not None and not bool(a.get("newton_ok")))
+                    if a["solves"] and len(a["solves"]) > 1:
+                        solver_failed = True      # high-precision retry inside the attempt
+                    if solver_failed:
+                        world.probe("retry_after_failed_solve")
+                        continue
+                    world.probe("step_rejected")
+                    ha, hb = _f(a["h"]), _f(b["h"])
+                    if not (abs(hb) < abs(ha) and sgn(hb) == sgn(ha)):
+                        world.violate(P, P + ".retry_shrinks", "integrator call at t=%r: attempt %d h=%r rejected, retried with h=%r (%s)"
+                                      % (_f(c["t0"]), j, ha, hb, c["cls"]))
+                        break
+                if len(atts) > 2:
+                    world.probe("multiple_retries")
+            if c["kind"] == "rich" and c["depth"] >= 1:
+                parent = [p for p in ics if p["kind"] == "rich" and p["depth"] == c["depth"] - 1 and p["seq0"] <= c["seq0"] and p.get("seq1", 1e18) >= c.get("seq1", 0)]
+                if parent:
+                    world.probe("richardson_redo")
+                    hp, hc = _f(parent[-1]["h_req"]), _f(c["h_req"])
+                    if not (abs(hc) < abs(hp) and sgn(hc) == sgn(hp)):
+                        world.violate(P, P + ".retry_shrinks", "Richardson redo at t=%r: h=%r retried with h=%r" % (_f(c["t0"]), hp, hc))
+        # exhaustion => error, nothing recorded
+        failed = [c for c in ics if c["depth"] == 0 and c["ok"] is False and c.get("exc") == "FailedToMeetTolerances"]
+        if failed:
+            world.probe("retries_exhausted")
+            e = snap["exc"]
+            ok = e is not None and type(e).__name__ == "FailedIntegration" and type(e.__cause__).__name__ in ("FailedToMeetTolerances", "FailedIntegration")
+            if not ok:
+                world.violate(P, P + ".exhaustion_raises", "retry loop exhausted but integrate raised %r" % (snap["exc_type"],))
+            c = failed[-1]
+            if c["nested"] == 1:
+                # the last recorded row must be the state the failed call started from
+                if not (bitwise_equal(snap["t"][-1], c["t0"]) and bitwise_equal(snap["y"][-1], c["y0"])):
+                    world.violate(P, P + ".exhaustion_records_nothing", "after FailedToMeetTolerances the last row (t=%r) is not the start of the failed step (t=%r)"
+                                  % (_f(snap["t"][-1]), _f(c["t0"])))
+
+
+class Accuracy(Monitor):
+    """C05 (fault-free clause): global error against the closed form is bounded by K*(atol+rtol*max|y|)*steps*amplification."""
+    K = 50.0
+
+    def __init__(self, prop="C05", oracle=None, K=None):
+        self.prop = prop
+        self.oracle = oracle or (prop + ".global_error")
+        if K is not None:
+            self.K = K
+
+    def after_op(self, world, i, op, pre, snap):
+        if snap["kind"] != "integrate" or snap["exc"] is not None:
+            return
+        if not world.problem.has_exact or world.fired:
+            return
+        if any(s["exc"] is not None for s in world.snaps[:-1]):
+            return
+        integ = world.system.integrator
+        if not getattr(integ, "is_adaptive", False):
+            return
+        t, y = snap["t"], snap["y"]
+        if len(t) < 2:
+            return
+        k = world.system.constants.get("k", 1.0)
+        exact = world.problem.exact(t[-1], t[0], np.asarray(y[0], dtype=np.float64), k=k)
+        err = float(np.max(np.abs(np.asarray(y[-1], dtype=np.float64) - exact)))
+        rtol, atol = _f(integ.rtol), _f(integ.atol)
+        ymax = float(np.max(np.abs(y)))
+        tol = atol + rtol * ymax
+        amp = world.problem.amplification(_f(t[0]), _f(t[-1]), k)
+        nsteps = len(t) - 1
+        eps = eps_of(y.dtype)
+        bound = tol * nsteps * amp + 64 * eps * nsteps * ymax * amp
+        world.ratio(self.oracle, err / bound)
+        if err > self.K * bound:
+            world.violate(self.prop, self.oracle, "|y_N - exact| = %.3e > %g * %.3e (rtol %.2e atol %.2e steps %d amp %.2f, %s)"
+                          % (err, self.K, bound, rtol, atol, nsteps, amp, type(integ).__name__))
